@@ -1241,6 +1241,10 @@ class Ctx:
         k = len(self.taken)
         if k < len(self.schedule):
             d = self.schedule[k]
+            if getattr(self, "fold_depth", 0) > 0 and self.feasible(z3.Not(e) if d else e):
+                # a replayed decision inside the body run for the arbitrary member of a team: it was a
+                # two-sided fork when it was first met (see below)
+                self.fold_forked = str(e)[:100]
         else:
             t = self.feasible(e)
             f = self.feasible(z3.Not(e))
